@@ -755,6 +755,7 @@ package spec
 //@               && result.options.RelativeBase == urlStr(urlScheme(normURI(old(refString(ref)), basePath)), normHost(urlScheme(normURI(old(refString(ref)), basePath)), urlHost(normURI(old(refString(ref)), basePath))),
 //@                     dedupSlashes(urlPath(normURI(old(refString(ref)), basePath))), urlQuery(normURI(old(refString(ref)), basePath)), "")
 //@   ensures  [C02] switched-base-non-empty @@ result != r ==> result.options.RelativeBase != ""
+//@   ensures  [C02] cached-target-is-the-new-root @@ result != r && old(cacheDom)[result.options.RelativeBase] ==> result.root == old(cacheDoc)[result.options.RelativeBase]
 //@   ensures  [C02] new-root-from-cache @@ result != r ==> (result.root != nil ==> old(cacheDom)[result.options.RelativeBase] && result.root == old(cacheDoc)[result.options.RelativeBase])
 
 //@ func (*schemaLoader).updateBasePath
@@ -1190,6 +1191,7 @@ package spec
 
 //@ func expandParameterOrResponse
 //@   strings  uninterpreted
+//@   call (*schemaLoader).deref 0 requires [C10,C03] chain-starts-without-ancestors @@ len(arg_parentRefs) == 0
 //@   call denormalizeRef 0 requires [C02,C03] rewrites-a-reference-in-absolute-form @@ arg_ref != nil && arg_ref.referenceURL != nil && arg_ref.referenceURL.Scheme != "" && arg_originalRelativeBase == resolver.context.basePath && arg_id == resolver.context.rootID
 //@   keeps    [C02] piLeft, piLeftLocal, piRes, piHome
 //@   call expandSchema 0 requires [C02] schema-in-holder-scope @@ payload(input) != nil ==> inScope(arg_resolver, arg_basePath, prRes, prHome, prLeft, prLeftLocal)
@@ -1234,6 +1236,7 @@ package spec
 
 //@ func expandPathItem
 //@   strings  uninterpreted
+//@   call (*schemaLoader).deref 0 requires [C10,C03] chain-starts-without-ancestors @@ len(arg_parentRefs) == 0
 //@   loop 0 invariant [C02] parameters-in-item-scope @@ inScope(resolver, basePath, piRes, piHome, piLeft, piLeftLocal)
 //@   loop 1 invariant [C02] operations-in-item-scope @@ inScope(resolver, basePath, piRes, piHome, piLeft, piLeftLocal)
 //@   property C04, C08, C03, C18
@@ -1357,6 +1360,7 @@ package spec
 //@   ensures  [C05] error-if-undefined @@ !ptrDefined(refFragment(ref), root) ==> result1 != nil
 
 //@ func ExpandSchemaWithBasePath
+//@   call expandSchema 0 requires [C10,C03] walk-starts-without-ancestors @@ len(arg_parentRefs) == 0
 //@   strings  uninterpreted
 //@   property C04, C08, C10, C18
 //@   assumes  [C04] root-location-wellformed @@ opts != nil && opts.RelativeBase != "" ==> canonBase(normBase(opts.RelativeBase))
